@@ -63,6 +63,7 @@ Proof.
     + split; [rewrite <- app_assoc; reflexivity | reflexivity].
     + rewrite add_last_snoc. destruct (shape_eqb p g); simpl; auto.
     + split; [|reflexivity]. rewrite <- !app_assoc. reflexivity.
+    + reflexivity.
 Qed.
 
 Lemma run_sim ops : forall r s, R r s ->
@@ -112,6 +113,7 @@ Definition rpos (s : rst) : option grid :=
 
 Definition bad_step (s : rst) (o : op) : bool :=
   match rpos s, o with
+  | _, OFail => true                                 (* the kernel raises by itself *)
   | None, OSet _ => false
   | None, _ => true                                  (* AOD used before any set_loc *)
   | Some p, OMove g => negb (shape_eqb p g)          (* move to a different shape *)
@@ -120,7 +122,7 @@ Definition bad_step (s : rst) (o : op) : bool :=
 
 Lemma rstep_err_iff s o : (exists e, rstep s o = Err e) <-> bad_step s o = true.
 Proof.
-  destruct s as [|d sg p], o as [g|g|k x y]; unfold bad_step; simpl; try destruct (shape_eqb p g); simpl;
+  destruct s as [|d sg p], o as [g|g|k x y|]; unfold bad_step; simpl; try destruct (shape_eqb p g); simpl;
     split; intros H; try discriminate; try (destruct H as [e H]; discriminate);
     try reflexivity; try (eexists; reflexivity).
 Qed.
@@ -198,7 +200,7 @@ Proof. intros H sg' T _. apply H. Qed.
 
 Lemma winv_step s o s' : WInv s -> rstep s o = Ok s' -> WInv s'.
 Proof.
-  destruct s as [|d sg p]; destruct o as [g|g|k x y]; simpl; intros HI E; try discriminate.
+  destruct s as [|d sg p]; destruct o as [g|g|k x y|]; simpl; intros HI E; try discriminate.
   - inversion E; subst; simpl.
     split; [reflexivity | split; [reflexivity |]].
     intros sg' T _. reflexivity.
